@@ -166,6 +166,8 @@ struct St {
     /// when > 0 for a thread, its Switch events do not create choice points (atomic region)
     atomic: Vec<bool>,
     max_events: u64,
+    /// how often each thread was given the baton
+    granted: Vec<u64>,
 }
 
 pub struct Shared {
@@ -191,6 +193,7 @@ impl Shared {
                 finished: false,
                 atomic: vec![false; n],
                 max_events,
+                granted: vec![0; n],
             }),
             cv: Condvar::new(),
             seq: AtomicU64::new(1),
@@ -277,6 +280,7 @@ impl Shared {
         st.trace.push(ChoicePoint { n_enabled: enabled.len() as u16, chosen: c as u16, running_enabled: me_enabled, label, decider: me.map(|m| m as i16).unwrap_or(-1) });
         st.turn = Some(enabled[c]);
         st.grants += 1;
+        st.granted[enabled[c]] += 1;
         self.cv.notify_all();
         true
     }
@@ -395,7 +399,7 @@ fn thread_body(c: &SC, clock: &MockClock, cfg: &Cfg, sh: &Arc<Shared>, me: usize
         };
         let obs = match *op {
             TOp::Ins(k, w) => {
-                c.insert(K::new(k), V::new(vid, w as u32));
+                c.insert(K::new(k), V::new(vid, crate::sut::weight_of(w)));
                 Obs::Unit
             }
             TOp::Get(k) => Obs::Val(c.get(&K::probe(k)).map(|v| (v.id, v.w))),
@@ -409,8 +413,21 @@ fn thread_body(c: &SC, clock: &MockClock, cfg: &Cfg, sh: &Arc<Shared>, me: usize
                 Obs::Unit
             }
             TOp::Sync => {
+                let others = |sh: &Arc<Shared>| {
+                    let st = sh.m.lock().unwrap();
+                    st.grants - st.granted[me]
+                };
+                let g0 = others(sh);
                 c.sync();
-                Obs::Unit
+                // sync() "performs any pending maintenance": if no other thread ran while
+                // it executed, nothing can be left in the queues when it returns
+                let g1 = others(sh);
+                let (rq, wq) = c.verif_queue_lens();
+                if g0 == g1 && (rq > 0 || wq > 0) {
+                    Obs::Items(vec![(255, rq as u32), (254, wq as u32)])
+                } else {
+                    Obs::Unit
+                }
             }
             TOp::Adv(n) => {
                 clock.advance(Duration::from_millis(n as u64 * cfg.tick_ms));
@@ -697,7 +714,7 @@ fn check_history(prog: &Program, all: &[Rec], viol: &mut Vec<Violation>) {
     // began, every other write to the key and every invalidate_all came before that
     // insert, and nothing can have evicted or expired it
     {
-        let total_w: u64 = inserts.iter().map(|i| if let TOp::Ins(_, w) = i.op { prog.cfg.pw(w as u32) as u64 } else { 0 }).sum();
+        let total_w: u64 = inserts.iter().map(|i| if let TOp::Ins(_, w) = i.op { prog.cfg.pw(crate::sut::weight_of(w)) as u64 } else { 0 }).sum();
         let no_pressure = prog.cfg.cap.map(|c| total_w <= c).unwrap_or(true);
         if no_pressure && !prog.cfg.has_expiry() {
             for r in all {
@@ -768,6 +785,14 @@ fn check_history(prog: &Program, all: &[Rec], viol: &mut Vec<Violation>) {
                     }
                 }
             }
+        }
+    }
+    // an explicit sync() that nobody interleaved with must have drained the queues
+    for r in all {
+        if let (TOp::Sync, Obs::Items(left)) = (&r.op, &r.obs) {
+            let d = format!("T{}#{} sync() returned with {:?} (255 = reads, 254 = writes) ops still queued although no other thread ran during the call", r.thread, r.idx, left);
+            viol.push(Violation { prop: "C10", sig: "sched:sync-left-ops-queued".into(), detail: d.clone(), witness: String::new() });
+            viol.push(Violation { prop: "C09", sig: "sched:sync-left-ops-queued".into(), detail: d, witness: String::new() });
         }
     }
     // values of one writer never go backwards for one reader
@@ -871,7 +896,7 @@ fn postlude(prog: &Program, sut: &mut Sut, all: &[Rec], viol: &mut Vec<Violation
     }
     // a last write that was an insert and cannot have been evicted must be there
     if !prog.threads.iter().flatten().any(|o| matches!(o, TOp::Burst(..))) {
-        let total_w: u64 = inserts.iter().map(|i| if let TOp::Ins(_, w) = i.op { cfg.pw(w as u32) as u64 } else { 0 }).sum();
+        let total_w: u64 = inserts.iter().map(|i| if let TOp::Ins(_, w) = i.op { cfg.pw(crate::sut::weight_of(w)) as u64 } else { 0 }).sum();
         let no_pressure = cfg.cap.map(|c| total_w <= c).unwrap_or(true);
         let invalls: Vec<&Rec> = all.iter().filter(|r| matches!(r.op, TOp::InvAll)).collect();
         if no_pressure && !cfg.has_expiry() {
@@ -1168,6 +1193,15 @@ pub fn family(name: &str, tier: &str) -> Vec<Program> {
             // a queued re-weigh of an entry that the watermark purge removes meanwhile
             out.push(mk(vec![Op::Ins(0, 1), Op::Sync, Op::Adv(1)], vec![vec![TOp::Ins(0, 2)], vec![TOp::Adv(1), TOp::InvAll, TOp::Ins(1, 2), TOp::Sync]], None));
             out.push(mk(vec![Op::Ins(0, 2), Op::Sync, Op::Adv(1)], vec![vec![TOp::Ins(0, 1)], vec![TOp::Adv(1), TOp::InvAll, TOp::Ins(1, 1), TOp::Sync]], None));
+            // an explicit sync() beside a thread that holds the housekeeping flag (a get in
+            // the "within" regime): the caller's earlier writes must be applied when it returns
+            for cap in [Some(1u64), Some(3)] {
+                let mut c = base(cap, None);
+                c.beyond = false;
+                c.nkeys = 3;
+                out.push(Program { cfg: c.clone(), prefix: vec![Op::Ins(0, 1)], threads: vec![vec![TOp::Get(0)], vec![TOp::Ins(1, 1), TOp::Sync]] });
+                out.push(Program { cfg: c.clone(), prefix: vec![Op::Ins(0, 1)], threads: vec![vec![TOp::Ins(2, 1)], vec![TOp::Ins(1, 1), TOp::Sync]] });
+            }
             // a writer re-inserting right after invalidate_all while maintenance purges
             for cap in [None, Some(2u64)] {
                 out.push(mk(vec![Op::Ins(0, 1), Op::Sync, Op::Adv(1), Op::InvAll], vec![vec![TOp::Sync], vec![TOp::Ins(0, 1), TOp::Get(0)]], cap));
@@ -1359,6 +1393,17 @@ pub fn family(name: &str, tier: &str) -> Vec<Program> {
                 c.nkeys = 5;
                 c.beyond = false;
                 out.push(Program { cfg: c, prefix: vec![Op::Ins(0, 1)], threads: vec![vec![TOp::Get(0)], vec![TOp::Burst(386, 3), TOp::Ins(1, 1)]] });
+            }
+            // ... the same after the clock left the periodic-sync window (only the queue
+            // length can trigger housekeeping then), and an explicit sync() beside a thread
+            // that holds the housekeeping flag
+            for cap in [Some(1u64), Some(10)] {
+                let mut c = base(cap, None);
+                c.nkeys = 5;
+                c.beyond = false;
+                out.push(Program { cfg: c.clone(), prefix: vec![Op::Ins(0, 1)], threads: vec![vec![TOp::Get(0)], vec![TOp::Adv(1), TOp::Burst(386, 3), TOp::Ins(1, 1)]] });
+                out.push(Program { cfg: c.clone(), prefix: vec![Op::Ins(0, 1)], threads: vec![vec![TOp::Get(0)], vec![TOp::Ins(1, 1), TOp::Sync]] });
+                out.push(Program { cfg: c.clone(), prefix: vec![Op::Ins(0, 1)], threads: vec![vec![TOp::Ins(2, 1)], vec![TOp::Ins(1, 1), TOp::Sync, TOp::Get(1)]] });
             }
             // back-pressure with a second thread inside maintenance
             for cap in [Some(1u64), Some(10)] {
